@@ -41,4 +41,16 @@ TEXTS = {
         level_text="Exploration over seeded contents x loss sets (single, subtree, scattered) x repair orders x versions, with an exact oracle for the reported missing set and for lookup outcomes, and byte comparison of the donor before/after.",
         level_note="Trusted: the harness's reachability walk over the store (uses NodeDB.GetNode and the node structs only).",
     ),
+    "C04": dict(
+        engine="mptsim", design_ref="DESIGN.md section 5 (C04)",
+        technique="deterministic simulation with crash injection: seeded multi-round histories on the real PNodeDB over a simulated RocksDB; every prefix of each save's write stream (and sampled power-loss prefixes) is materialised as a crashed disk, reopened, checked and re-executed",
+        level_text="Fault enumeration: within each sampled history the crash points of every save are enumerated exhaustively (every prefix of the write stream; batches atomic), each crashed disk is reopened with the real PNodeDB and checked for completeness of all earlier rounds and for re-execution giving the same root. Histories themselves are sampled.",
+        level_note="Trusted: the simulated RocksDB's durability model (atomic batches, prefix survival). Context cancellation of SaveChanges is not explored (not seed-determined).",
+    ),
+    "C05": dict(
+        engine="mptsim", design_ref="DESIGN.md section 5 (C05)",
+        technique="deterministic simulation with crash injection: dead-set vs. reachability invariant over seeded multi-round histories; PruneBelowVersion with a crash at every write index of its delete stream, reopen, re-run",
+        level_text="Fault enumeration: every write index of every prune's stream is a crash point (exhaustive per history), for every sampled prune version; the dead-set/reachability invariant is evaluated incrementally for all round pairs of each history.",
+        level_note="Trusted: the harness's reachability walk and the simulated RocksDB's durability model.",
+    ),
 }
